@@ -2319,10 +2319,13 @@ impl Element {
                 for (i, elem) in ret.iter().enumerate().rev() {
                     match elem {
                         Node::Element(Element {
-                            kind: ElementKind::If { .. },
+                            kind: ElementKind::If { else_branch, .. },
                             ..
                         }) => {
-                            if_index = Some(i);
+                            // (a chain that has its `wx:else` branch is closed: nothing can join it)
+                            if else_branch.is_none() {
+                                if_index = Some(i);
+                            }
                             break;
                         }
                         Node::Comment(..) => {}
